@@ -120,7 +120,10 @@ class Recorder(object):
             extra = dict(extra or {}, cls='T_' + w.last_fired.upper(), t=w.last_fired)
         post = self.summ(o)
         for d in o['out']:
-            b = BUCKET.get({'OPEN': 1, 'UPDATE': 2, 'NOTIFICATION': 3, 'KEEPALIVE': 4, 'RR': 5}.get(d['type'], 0))
+            typ = d['type']
+            if typ == 'GARBAGE' and ev['k'] == 'rest' and e.get('rule') == 'send/bin_update':
+                typ = 'UPDATE'        # octets the operator handed to send/bin_update travel (and count) as the UPDATE they stand for
+            b = BUCKET.get({'OPEN': 1, 'UPDATE': 2, 'NOTIFICATION': 3, 'KEEPALIVE': 4, 'RR': 5}.get(typ, 0))
             if b:
                 self.sent.setdefault(d['c'], self.cnt())[b[0]] += 1
         self.i += 1
@@ -142,7 +145,7 @@ class Recorder(object):
             'wS': [self.sent.get(tr, self.cnt())[b] for b, _ in STATKEY] if tr else [],
             'wR': [self.recv.get(tr, self.cnt())[b] for b, _ in STATKEY] if tr else [],
             'rest': self.rest_rec(o['rest']),
-            'fz': '', 'flen': 0, 'probeok': True, 'rptsame': True, 'aspathok': True, 'acc': 0, 'esub': 0,
+            'fz': '', 'flen': 0, 'probeok': True, 'rptsame': True, 'aspathok': True, 'binsame': True, 'acc': 0, 'esub': 0,
             'rq': dict(_RQ0), 'statsame': True,
         }
         if extra:
